@@ -10,8 +10,8 @@ import (
 )
 
 type acTable struct {
-	Shapes []eng.ACShape  `json:"shapes"`
-	Hists  []eng.ACHist   `json:"hists"`
+	Shapes []eng.ACShape `json:"shapes"`
+	Hists  []eng.ACHist  `json:"hists"`
 }
 
 func init() {
